@@ -95,6 +95,8 @@ Definition spec_reply (w : world) (svc_ok : bool) (rq : request) : sreply :=
       end
   end.
 
+Definition req_is_ws (cr : creq) : bool := match c_req cr with QWs _ _ => true | QRest _ => false end.
+
 Definition spec_of (w : world) (clients : list ckind) (cr : creq) : sreply :=
   spec_reply w (match nth_error clients (c_client cr) with Some ck => ck_svc ck | None => false end) (c_req cr).
 
